@@ -55,7 +55,8 @@ CMD_POOL = ('x', 'y', 'foo', 'bar', 'emph', 'textit', 'cite', 'ref', 'footnote',
             # ordinary commands with an open signature
             'text', 'itemsep', 'itemindent', 'endnote', 'endgraf', 'begingroup', 'items', 'sectionmark', 'labels',
             'section*', 'textbf*', 'label*', 'def*', 'in*', 'cup*', 'notin*', 'newcommandx', 'verbatim', 'math',
-            'equation', 'tex', 'infty*', 'noindent*', 'inf', 'i', 'e')
+            'equation', 'tex', 'infty*', 'noindent*', 'inf', 'i', 'e', 'command', 'mycommand', 'shellcommand',
+            'KeyCommand', 'commandline')
 MATH_CMD_POOL = (('frac', 0, 2), ('sqrt', 1, 1), ('sqrt', 0, 1), ('mathbf', 0, 1), ('sum', 0, 0), ('alpha', 0, 0),
                  ('int', 0, 0), ('text', 0, 1), ('hat', 0, 1), ('vec', 0, 1), ('mathcal', 0, 1), ('cdot', 0, 0),
                  ('ldots', 0, 0), ('le', 0, 0), ('binom', 0, 2), ('lim', 0, 0), ('to', 0, 0), ('min', 0, 0))
@@ -605,7 +606,7 @@ ODD = ('&', '#', '#1', '~', '^', '_', 'é', 'ß', '你', '😂', ' ')
 # characters the category table calls Other but str.isalpha / isspace / splitlines / isprintable single out, and
 # boundary code points
 ODD = ODD + ('É', 'α', 'б', '中文', '\x0c', '\x0b', '\x1c', '\x85', '\xa0', '\u2028', '\u2029', '\u3000', '\u0660', '²',
-             '\u200b', '\u0301', '\ufeff', 'ÿ', 'Ā', '\xad', '\u2060', '\uffff', '\U00010000')
+             '\u200b', '\u0301', '\ufeff', 'e\u0301t', 'a\u0300 la', 'n\u0303', 'ÿ', 'Ā', '\xad', '\u2060', '\uffff', '\U00010000')
 MATH_ATOMS = ('x', 'y', 'a', 'b', 'n', 'i', '0', '1', '2', '+', '-', '=', '<', '>', ',', '.', ' ', ' ', '!', '|',
               '/', '\\,', '\\;', '\\|', '&', '\n', '\\\\', '\\{', '\\}', "'")
 
